@@ -160,6 +160,27 @@ func compareToModel(s Session, r *sessRun, i int, pre *simos.FS) *Violation {
 		stats.probe("model-undefined")
 		return nil
 	}
+	if e.Status == 2 && e.Why == "-o target cannot be written" && (res.Code == 0 || res.Code == 1) && res.Crash == "" {
+		// The model expects a failure because the directory -o points into
+		// does not exist. A program may also go to the trouble of creating it;
+		// then everything must be as if it had been there.
+		if fo := parseArgv(p.Argv); fo.output != "" {
+			pre2 := pre.Clone()
+			for d := dirOfName(pre2.Resolve(fo.output)); d != "." && d != "/" && d != ""; d = dirOfName(d) {
+				if _, isFile := pre2.Files[d]; isFile {
+					pre2 = nil
+					break
+				}
+				pre2.Dirs[d] = true
+			}
+			if pre2 != nil {
+				if e2 := cliModel(p.Bin, p.Arg0, p.Argv, pre2, r.Stdin[i]); e2.Defined && e2.Status != 2 {
+					stats.probe("missing-output-directory-created-by-the-program")
+					e, pre = e2, pre2
+				}
+			}
+		}
+	}
 	if res.Runaway {
 		return viol14("no-termination", p, e, "process was still making I/O calls after %d of them: it does not terminate; argv=%q", len(res.Steps), p.Argv)
 	}
